@@ -265,7 +265,10 @@ class CallMixin:
         s2.heap = newheap
         new = HeapView(newheap)
         s2.assume(new.alloc >= old.alloc)
+        wanted = set(getattr(self.spec, "uses_invariants", ()) or ())
         for entry in self.reg.rely_clauses(self):
+            if len(entry) > 3 and entry[3].get("lazy") and entry[0] not in wanted:
+                continue            # proved for every segment, but used as a hypothesis only where a contract asks for it
             if entry[0].startswith(("immutable:", "set-monotone:")):
                 # quantified immutability: ground instances for the objects in scope are assumed below; the
                 # quantified form is a second-stage hypothesis
@@ -478,6 +481,11 @@ class CallMixin:
                 return h(self, st, pos, kw, node)
         if k == "libbm":
             return self.reg.lib_call(self, st, fv.ty.name, SV(Val.recv(fv.t), ANY), pos, kw, node, awaited)
+        if k == "wref":
+            # A-WR: calling a weak reference yields its target while it is alive, else None
+            st.uses.add("A-WR")
+            alive = fresh("alive", B)
+            return [Res(st, SV(z3.If(alive, Val.target(fv.t), VNone), ANY))]
         # unknown callable value: opaque
         label = ast.unparse(node.func) if node is not None else "value"
         return self.opaque_call(st, fv, pos + list(kw.values()) + list(packs), None, f"call({label})")
@@ -631,7 +639,10 @@ class CallMixin:
             s2.assume(s2.heap["alloc"] >= old_alloc)
             if not spec.assumed:
                 old, new = HeapView(st.heap), HeapView(s2.heap)
+                wanted = set(getattr(self.spec, "uses_invariants", ()) or ())
                 for entry in self.reg.guarantees:
+                    if len(entry) > 3 and entry[3].get("lazy") and entry[0] not in wanted:
+                        continue
                     # the callee's own segments keep the guarantee; rarely needed by the caller: second-stage hypothesis
                     s2.heavy.append(entry[1](old, new))
         out = []
@@ -642,8 +653,12 @@ class CallMixin:
         res = self.typed(ok, rt, spec.ret_type)
         F = Frame(self, st, ok, args, result=res)
         F.ghost = spec.fresh_ghost_outputs(self, ok)
+        heavy_names = getattr(spec, "heavy_ensures", ())
         for (name, f) in list(spec.ensures(F)) + list(spec.call_site_extra(F)):
-            ok.assume(f)
+            if name in heavy_names:
+                ok.heavy.append(f)       # rarely needed by callers: second-stage hypothesis
+            else:
+                ok.assume(f)
         if self.feasible(ok):
             out.append(Res(ok, res))
         if spec.may_raise:
